@@ -42,32 +42,48 @@ structure Machine (F : Type) where
   setSafe : Bool → F → F
   setKeep : Bool → F → F
   shw : F → String
+  /-- what `reb_simulation_step` does after the post-timestep callback (`reb_simulation_rescale_var`) -/
+  stepTail : F → List String × F := fun f => ([], f)
 
 /-- run one group through a flag machine: prims (as strings) with the dt markers in between -/
-def runGroup {F : Type} (M : Machine F) : F → List DtOp → List String → Except String (List String × F)
-  | f, [], acc => .ok (acc.reverse, f)
-  | f, .setRcrit :: r, acc => runGroup M (M.setR f) r acc
-  | f, .setSafe b :: r, acc => runGroup M (M.setSafe b f) r acc
-  | f, .setKeep b :: r, acc => runGroup M (M.setKeep b f) r acc
+def runGroup {F : Type} (M : Machine F) (defer : Bool) : F → List DtOp → List String → Except String (List String × F)
+  | f, [], acc =>
+    if defer then
+      let (tl, f') := M.stepTail f
+      .ok (acc.reverse ++ tl, f')
+    else .ok (acc.reverse, f)
+  | f, .setRcrit :: r, acc => runGroup M defer (M.setR f) r acc
+  | f, .setSafe b :: r, acc => runGroup M defer (M.setSafe b f) r acc
+  | f, .setKeep b :: r, acc => runGroup M defer (M.setKeep b f) r acc
   | f, .forceSync :: r, acc =>
     match M.apiForce f .synchronize with
     | .error e => .error e
-    | .ok (ps, f') => runGroup M f' r (ps.reverse ++ acc)
+    | .ok (ps, f') => runGroup M defer f' r (ps.reverse ++ acc)
   | f, .api o :: r, acc =>
     match M.api f o with
     | .error e => .error e
     | .ok (ps, f') =>
-      let tail := match o with | .step => ["stepEnd"] | .poke _ => ["cbEdit"] | _ => []
-      runGroup M f' r ((ps ++ tail).reverse ++ acc)
-  | f, .begin :: r, acc => runGroup M f r ("intBegin" :: acc)
-  | f, .flipDt :: r, acc => runGroup M f r ("flipDt" :: acc)
-  | f, .setDtLast :: r, acc => runGroup M f r ("setDtLast" :: acc)
-  | f, .restoreDt :: r, acc => runGroup M f r ("restoreDt" :: acc)
+      match o with
+      | .step =>
+        -- without a post-timestep callback the rescaling follows the step at once
+        let (tl, f'') := if defer then ([], f') else M.stepTail f'
+        runGroup M defer f'' r ((ps ++ ["stepEnd"] ++ tl).reverse ++ acc)
+      | .poke _ => runGroup M defer f' r ((ps ++ ["cbEdit"]).reverse ++ acc)
+      | _ => runGroup M defer f' r (ps.reverse ++ acc)
+  | f, .begin :: r, acc => runGroup M defer f r ("intBegin" :: acc)
+  | f, .flipDt :: r, acc => runGroup M defer f r ("flipDt" :: acc)
+  | f, .setDtLast :: r, acc => runGroup M defer f r ("setDtLast" :: acc)
+  | f, .restoreDt :: r, acc => runGroup M defer f r ("restoreDt" :: acc)
+
+/-- a group that is one step with callbacks (it contains the callbacks' edits) -/
+def isCbGroup (g : List DtOp) : Bool :=
+  g.any (fun d => match d with | .api (.poke _) => true | _ => false) &&
+  g.any (fun d => match d with | .api .step => true | _ => false)
 
 def runGroups {F : Type} (M : Machine F) : F → List (List DtOp) → List String → String
   | _, [], acc => ";".intercalate acc.reverse
   | f, g :: gs, acc =>
-    match runGroup M f g [] with
+    match runGroup M (isCbGroup g) f g [] with
     | .error e => ";".intercalate (("error " ++ e) :: acc).reverse
     | .ok (ps, f') => runGroups M f' gs ((",".intercalate ps ++ "@" ++ M.shw f') :: acc)
 
@@ -89,13 +105,18 @@ def whMachine : Machine (Config × Flags) where
   setKeep := fun b x => ({ x.1 with keep := b }, x.2)
   shw := fun x => flagsStr x.2
 
-def varMachine : Machine (Config × Flags) where
-  api := liftApi (fun c f o => (Except.ok (vOpOps c f o) : Except String _)) Prim.toString
-  apiForce := liftApi (fun c f o => (Except.ok (vOpOps { c with keep := false } f o) : Except String _)) Prim.toString
+/-- state of the variational machine: configuration, source variant of rescale_var, flags, magnitudes -/
+def varMachine : Machine ((Config × Bool) × (Flags × VMag)) where
+  api := liftApi (fun c f o => (Except.ok (vCoreOpsR c.1 f.1 f.2 o) : Except String _)) Prim.toString
+  apiForce := liftApi (fun c f o => (Except.ok (vCoreOpsR { c.1 with keep := false } f.1 f.2 o) : Except String _)) Prim.toString
   setR := id
-  setSafe := fun b x => ({ x.1 with safe := b }, x.2)
-  setKeep := fun b x => ({ x.1 with keep := b }, x.2)
-  shw := fun x => flagsStr x.2
+  setSafe := fun b x => (({ x.1.1 with safe := b }, x.1.2), x.2)
+  setKeep := fun b x => (({ x.1.1 with keep := b }, x.1.2), x.2)
+  shw := fun x => flagsStr x.2.1 ++ " " ++ bs x.2.2.bigP
+  stepTail := fun x =>
+    let r := vStepTailR x.1.2 x.1.1 x.2.1 x.2.2
+    -- the rescaling primitive is printed with the model's verdict: performed or not
+    ([if r.2.2.2 then "vRescale=1" else "vRescale=0"], (x.1, (r.2.1, r.2.2.1)))
 
 def sabaMachine : Machine (SabaConfig × Flags) where
   api := liftApi (fun c f o => sabaApiOps c f o) Prim.toString
@@ -168,9 +189,9 @@ def step (toks : List String) : String :=
     match p0.toNat?, p1.toNat?, n.toNat? with
     | some p0, some p1, some n => runEos p0 p1 n (fl dt) (b01 sa) (b01 isy) ops []
     | _, _, _ => "bad-op"
-  | "V" :: sa :: kp :: vf :: pf :: isy :: rc :: al :: ops =>
+  | "V" :: sa :: kp :: vf :: pf :: rf :: bg :: isy :: rc :: al :: ops =>
     match ops.mapM groupOf with
-    | some ops => runGroups varMachine (⟨.jacobi, 0, 0, false, b01 sa, b01 kp, false, b01 vf, b01 pf⟩, ⟨b01 isy, b01 rc, b01 al⟩) ops []
+    | some ops => runGroups varMachine ((⟨.jacobi, 0, 0, false, b01 sa, b01 kp, false, b01 vf, b01 pf⟩, b01 rf), (⟨b01 isy, b01 rc, b01 al⟩, ⟨b01 bg, b01 bg⟩)) ops []
     | none => "bad-op"
   | "MC" :: sa :: isy :: rc :: rr :: ad :: atm :: ops =>
     match ops.mapM groupOf with
